@@ -2,14 +2,16 @@ import CssVerif.Lib.Proto
 /-!
 # K5 — model of the profile registry `cssutils/profiles.py` (class `Profiles`, lines 100-450)
 
-Hand transcription, statement by statement, of the code as it is NOW (after fix 86e5da6: re-adding an existing
-name keeps the name listed once). Strings are `List Nat` (code points). Python `dict`s are association lists
+Hand transcription, statement by statement, of the code as it is NOW — after the fixes 86e5da6 (re-adding an
+existing name keeps the name listed once), 8a9e974 (remove-all resets the macro cache; re-adding a registered name
+with macros and bulk-adding over registered profiles re-expand from the raw values) and fb19e57 (`_atomic`: a
+mutator that raises restores the registry). Strings are `List Nat` (code points). Python `dict`s are association lists
 with Python's update discipline (`dset`: replace the value in place, else append), because the order of
 `_profilesProperties` is observable through `knownNames`.
 
 State (`profiles.py:104-115`): `_usedMacros`, `_profileNames`, `_rawProfiles`, `_profilesProperties`,
-`_defaultProfiles`, `_knownNames`. An operation that raises half way keeps the assignments it has already made —
-every mutator returns the new state *and* the exception, if any.
+`_defaultProfiles`, `_knownNames`. A Python method that raises half way keeps the assignments it has already made —
+every function here returns the new state *and* the exception, if any; `atomic` is the decorator that undoes them.
 
 Regular-expression acceptance is not modelled: `accepts : CVal → Str → Bool` is a parameter (a callable that
 raises counts as `false`, which is what `validate` does when `log.raiseExceptions` is off). What *is* modelled is
@@ -209,7 +211,7 @@ def resetProperties (cfg : Cfg) (r : Reg) (newMacros : Option (Dict Str)) : Reg 
     | some e => ({ r with compiled := res.1 }, some e)
     | none => ({ r with compiled := res.1, used := m }, none)
 
-/-! ## `addProfile` (`profiles.py:259-310`) -/
+/-! ## `addProfile` (`profiles.py:298-358`) -/
 
 /-- lines 283-297: the macro environment; returns the registry and the macros stored for the profile -/
 def addMacros (cfg : Cfg) (r : Reg) (profile : Str) (macros : Option (Dict Str)) : (Reg × Dict Str) × Option Exc :=
@@ -235,14 +237,46 @@ def addStore (cfg : Cfg) (r1 : Reg) (profile : Str) (properties : Dict PVal) (ms
   | .error e => (r2, some e)
   | .ok ex => (updateKnown { r2 with compiled := dset r2.compiled profile (compileDict ex) }, none)
 
-def addProfile (cfg : Cfg) (r : Reg) (profile : Str) (properties : Dict PVal) (macros : Option (Dict Str)) :
+/-- `_atomic` (`profiles.py:23-48`): if the wrapped method raises, `_usedMacros`, `_profileNames`, `_rawProfiles`,
+`_profilesProperties` and `_knownNames` are put back as they were on entry (`_defaultProfiles` is not saved: no
+wrapped method assigns it) -/
+def atomic (f : Reg → Reg × Option Exc) (r : Reg) : Reg × Option Exc :=
+  let res := f r
+  match res.2 with
+  | none => res
+  | some e => ({ res.1 with used := r.used, names := r.names, raw := r.raw, compiled := r.compiled,
+                            known := r.known }, some e)
+
+/-- the path `replaced` of `addProfile`: the name is registered and macros are given — no incremental macro
+handling; the raw values are stored and everything is re-expanded from the raw values -/
+def addReplace (cfg : Cfg) (r : Reg) (profile : Str) (properties : Dict PVal) (ms : Dict Str) : Reg × Option Exc :=
+  let r2 : Reg := { r with
+    names := if profile ∈ r.names then r.names else r.names ++ [profile],
+    raw := dset r.raw profile { props := some properties, macros := ms } }
+  let res := resetProperties cfg r2 none
+  match res.2 with
+  | some e => (res.1, some e)
+  | none => (updateKnown res.1, none)
+
+/-- the other path: macros first (lines 324-340), then store and expand incrementally -/
+def addPlain (cfg : Cfg) (r : Reg) (profile : Str) (properties : Dict PVal) (macros : Option (Dict Str)) :
     Reg × Option Exc :=
   let s := addMacros cfg r profile macros
   match s.2 with
   | some e => (s.1.1, some e)
   | none => addStore cfg s.1.1 profile properties s.1.2
 
-/-! ## `addProfiles` (`profiles.py:244-257`) -/
+/-- the body of `addProfile`; `replaced = profile in self._profileNames and bool(macros)` -/
+def addProfileRaw (cfg : Cfg) (r : Reg) (profile : Str) (properties : Dict PVal) (macros : Option (Dict Str)) :
+    Reg × Option Exc :=
+  if profile ∈ r.names ∧ truthy macros = true then addReplace cfg r profile properties (macros.getD [])
+  else addPlain cfg r profile properties macros
+
+def addProfile (cfg : Cfg) (r : Reg) (profile : Str) (properties : Dict PVal) (macros : Option (Dict Str)) :
+    Reg × Option Exc :=
+  atomic (fun r => addProfileRaw cfg r profile properties macros) r
+
+/-! ## `addProfiles` (`profiles.py:274-296`) -/
 
 structure ProfileDef where
   name : Str
@@ -268,15 +302,32 @@ def addEach (cfg : Cfg) (r : Reg) : List ProfileDef → Reg × Option Exc
     | some e => (res.1, some e)
     | none => addEach cfg res.1 ds
 
+/-- the body of `addProfiles`; `reset`: profiles were registered before, or a name occurs twice — then everything
+is re-expanded from the raw values at the end -/
+def addProfilesRaw (cfg : Cfg) (r : Reg) (l : List ProfileDef) : Reg × Option Exc :=
+  let reset := !r.names.isEmpty || !decide ((l.map (·.name)).Nodup)
+  let res := addEach cfg (preloadMacros r l) l
+  match res.2 with
+  | some e => (res.1, some e)
+  | none =>
+    if reset then
+      let rr := resetProperties cfg res.1 none
+      match rr.2 with
+      | some e => (rr.1, some e)
+      | none => (updateKnown rr.1, none)
+    else res
+
 def addProfiles (cfg : Cfg) (r : Reg) (l : List ProfileDef) : Reg × Option Exc :=
-  addEach cfg (preloadMacros r l) l
+  atomic (fun r => addProfilesRaw cfg r l) r
 
 /-! ## `removeProfile` (`profiles.py:312-349`) -/
 
-def removeAll (r : Reg) : Reg :=
-  updateKnown { r with compiled := [], raw := [], names := [] }
+/-- `removeProfile(all=True)`: clears the tables and puts the macro cache back to the base macros -/
+def removeAll (cfg : Cfg) (r : Reg) : Reg :=
+  updateKnown { r with compiled := [], raw := [], names := [], used := cfg.base }
 
-def removeProfile (cfg : Cfg) (r : Reg) (profile : Option Str) : Reg × Option Exc :=
+/-- the body of `removeProfile(profile)` -/
+def removeProfileRaw (cfg : Cfg) (r : Reg) (profile : Option Str) : Reg × Option Exc :=
   match profile with
   | none => (r, some .noSuchProfile)                      -- `_rawProfiles[None]`
   | some p =>
@@ -298,7 +349,10 @@ def removeProfile (cfg : Cfg) (r : Reg) (profile : Option Str) : Reg × Option E
           else (updateKnown r2, none)
         else (r1, some .valueError)
 
-/-! ## `defaultProfiles` (`profiles.py:184-205`) -/
+def removeProfile (cfg : Cfg) (r : Reg) (profile : Option Str) : Reg × Option Exc :=
+  atomic (fun r => removeProfileRaw cfg r profile) r
+
+/-! ## `defaultProfiles` (`profiles.py:214-235`) -/
 
 def setDefault (r : Reg) (d : Option (List Str)) : Reg := { r with default := d }
 
@@ -403,10 +457,10 @@ def step (cfg : Cfg) (r : Reg) : Op → Reg × Option Exc
   | .add n ps ms => addProfile cfg r n ps ms
   | .addMany l => addProfiles cfg r l
   | .remove n => removeProfile cfg r n
-  | .removeAll => (removeAll r, none)
+  | .removeAll => (removeAll cfg r, none)
   | .setDefault d => (setDefault r d, none)
 
-/-- a history; exceptions are caught by the caller and the registry stays as the failed call left it -/
+/-- a history; exceptions are caught by the caller (the registry is as the failed call left it: unchanged) -/
 def run (cfg : Cfg) (r : Reg) : List Op → Reg
   | [] => r
   | op :: ops => run cfg (step cfg r op).1 ops
